@@ -224,15 +224,16 @@ def known_findings():
 
 
 def write_evidence(pid, tier, seed, coverage, wall, violations, assumptions, level="model_checking"):
-    os.makedirs(os.path.join(VERIF, "evidence"), exist_ok=True)
+    edir = "evidence" if pid.startswith("C") else "evidence_extra"
+    os.makedirs(os.path.join(VERIF, edir), exist_ok=True)
     ev = {"property_id": pid, "tier": tier, "seed": int(seed), "level": level,
           "coverage": coverage, "assumptions": assumptions, "wall_s": round(wall, 2),
           "violations": int(violations)}
-    tmp = os.path.join(VERIF, "evidence", ".%s.%d.tmp" % (pid, os.getpid()))
+    tmp = os.path.join(VERIF, edir, ".%s.%d.tmp" % (pid, os.getpid()))
     with open(tmp, "w") as f:
         json.dump(ev, f, indent=1, sort_keys=True)
         f.write("\n")
-    os.replace(tmp, os.path.join(VERIF, "evidence", pid + ".json"))
+    os.replace(tmp, os.path.join(VERIF, edir, pid + ".json"))
 
 
 def save_replay(pid, payload):
